@@ -13,23 +13,24 @@ import (
 // returns more than one segment), the server's output is collected, and the
 // moments at which the server blocks waiting for input are observable.
 type memConn struct {
-	mu       sync.Mutex
-	cond     *sync.Cond
-	segs     [][]byte
-	eof      bool // no more input will come: Read returns io.EOF once drained
-	readErr  error
-	out      []byte
-	closed   bool
-	finished bool
-	idle     bool
-	writes   int
-	failAt   int // fail the k-th write (0-based) and all later ones; -1: never
-	reads    int
-	readFail int // fail the k-th read and later; -1: never
-	closes   int
-	pushed   int // number of client chunks handed to the transport so far
-	addr     string
-	sslFirst bool
+	mu        sync.Mutex
+	cond      *sync.Cond
+	segs      [][]byte
+	eof       bool // no more input will come: Read returns io.EOF once drained
+	readErr   error
+	out       []byte
+	closed    bool
+	finished  bool
+	idle      bool
+	writes    int
+	failAt    int // fail the k-th write (0-based) and all later ones; -1: never
+	reads     int
+	readFail  int // fail the k-th read and later; -1: never
+	closes    int
+	pushed    int // number of client chunks handed to the transport so far
+	addr      string
+	sslFirst  bool
+	encrypted bool // the server's output is TLS ciphertext: it cannot be parsed by the recorder
 }
 
 func newMemConn() *memConn {
